@@ -164,6 +164,23 @@ theorem amplitudeNormalise_scale_free (E : Nat → List Rat → Option (List Rat
   unfold anLoop
   simp only [smul, zipWith_div_smul (ne_of_gt hc)]
 
+/-- **No absolute threshold in the normalisation**: with a positively homogeneous envelope oracle, the normalised
+    column of `c • x` is the same for EVERY positive factor `c` — `2⁻⁴⁰` as well as `1` or `2⁴⁰` — whether or not the
+    column has an envelope: the result depends on the direction of `x` only; where it has none, the column is
+    returned as it is at every amplitude (`amplitudeNormalise_no_envelope`).  A test of the samples against a fixed
+    number before normalising (`np.allclose(X, 0)`, seeded C09-5) contradicts this for small `c`. -/
+theorem amplitudeNormalise_no_absolute_threshold (E : Nat → List Rat → Option (List Rat)) (thresh : Rat)
+    (maxIters : Nat) (x : List Rat) (hk : 1 ≤ maxIters)
+    (hE : ∀ c, 0 < c → E 0 (smul c x) = (E 0 x).map (smul c)) (c d : Rat) (hc : 0 < c) (hd : 0 < d) :
+    (∀ env, E 0 x = some env →
+      amplitudeNormalise E thresh maxIters (smul c x) = amplitudeNormalise E thresh maxIters (smul d x)) ∧
+    (E 0 x = none → amplitudeNormalise E thresh maxIters (smul c x) = smul c x) := by
+  refine ⟨fun env hx => ?_, fun hx => ?_⟩
+  · rw [amplitudeNormalise_scale_free E thresh maxIters c x hc hk env hx (by rw [hE c hc, hx]; rfl),
+      amplitudeNormalise_scale_free E thresh maxIters d x hd hk env hx (by rw [hE d hd, hx]; rfl)]
+  · have : E 0 (smul c x) = none := by rw [hE c hc, hx]; rfl
+    simp [amplitudeNormalise, this]
+
 /-- `hilbert` method: phase and frequency of `c·x` are those of `x`, the amplitude is `c` times
     the amplitude of `x`. -/
 theorem ft_hilbert_scale (O : Analytic) (halfPi twoPi sr c : Rat) (x : List Rat) (_hc : 0 < c)
@@ -483,6 +500,14 @@ example :
       = amplitudeNormalise Witness.E (1 / 10) 3 [2, -4, 6] :=
   amplitudeNormalise_scale_free Witness.E (1 / 10) 3 3 [2, -4, 6] (by norm_num) (by norm_num)
     [2, 2, 2] (by norm_num [Witness.E, absR]) (by norm_num [Witness.E, smul, absR])
+
+-- … and for a tiny factor: c = 2⁻⁴⁰ (samples ≈ 1e-12, far below any fixed tolerance) normalises to the same column
+example :
+    amplitudeNormalise Witness.E (1 / 10) 3 (smul (1 / 1099511627776) [2, -4, 6])
+      = amplitudeNormalise Witness.E (1 / 10) 3 (smul 1 [2, -4, 6]) :=
+  (amplitudeNormalise_no_absolute_threshold Witness.E (1 / 10) 3 [2, -4, 6] (by norm_num)
+    (fun c hc => Witness.E_homogeneous hc 0 _) (1 / 1099511627776) 1 (by norm_num) (by norm_num)).1
+    [2, 2, 2] (by norm_num [Witness.E, absR])
 
 -- short and long input of `frequencyTransform?`
 example : ([] : List Rat).length < 2 ∧ [(1 : Rat)].length < 2 ∧ 2 ≤ [(1 : Rat), 2].length := by decide
